@@ -312,6 +312,16 @@ fn body(r: &mut Report) {
             }
         }
         w.witness("unix-connect-0", first_connect == 0, format!("non-blocking connect to a listening unix socket = {first_connect}"));
+        if full_fd >= 0 {
+            // nobody has accepted yet: the unconnected socket polls writable at once and the retry answers EAGAIN again
+            let (pp, rev) = poll1(full_fd, libc::POLLOUT, 0);
+            let x = if libc::connect(full_fd, &sa as *const _ as *const _, sl) < 0 { -(errno() as i64) } else { 0 };
+            w.witness(
+                "unix-connect-full-backlog-pollout-at-once-then-eagain-again",
+                pp == 1 && x == -(libc::EAGAIN as i64),
+                format!("accept queue full, no accept yet: ppoll(POLLOUT, 0) on the unconnected socket = {pp} (revents {rev:#x}), second connect = {x}"),
+            );
+        }
         let (lp, lrev) = poll1(l, libc::POLLIN, 0);
         w.witness("ppoll-listener-ready", lp == 1 && lrev & libc::POLLIN != 0, format!("ppoll(POLLIN) on a listener with a queued connection = {lp}, revents {lrev:#x}"));
         let acc = libc::accept4(l, std::ptr::null_mut(), std::ptr::null_mut(), libc::SOCK_NONBLOCK | libc::SOCK_CLOEXEC);
@@ -748,6 +758,100 @@ pub fn real_exec_eof(r: &mut Report) {
     let _ = std::fs::remove_dir_all(&dir);
 }
 
+
+/// Finding "blocking UnixStream::connect does not wait on a full accept queue" against the REAL kernel:
+/// a libc listener with backlog 0 holds one queued connection; a helper accepts both 200 ms later;
+/// the real `UnixStream::connect` must complete when the peer accepts.
+pub fn real_unix_connect_full_backlog(r: &mut Report) {
+    use tiny_std::net::UnixStream;
+    unsafe {
+        r.eval();
+        r.nontrivial_unique();
+        let dir = format!("/tmp/h-net-ucf-{}", libc::getpid());
+        let _ = std::fs::remove_dir_all(&dir);
+        std::fs::create_dir_all(&dir).expect("tmp dir");
+        let p = format!("{dir}/l\0");
+        let (sa, sl) = sockaddr_un(&p[..p.len() - 1]);
+        let l = libc::socket(libc::AF_UNIX, libc::SOCK_STREAM | libc::SOCK_CLOEXEC, 0);
+        assert_eq!(0, libc::bind(l, &sa as *const _ as *const _, sl));
+        assert_eq!(0, libc::listen(l, 0));
+        // fill the queue
+        let mut fillers = Vec::new();
+        let mut full = false;
+        for _ in 0..8 {
+            let c = libc::socket(libc::AF_UNIX, libc::SOCK_STREAM | libc::SOCK_NONBLOCK | libc::SOCK_CLOEXEC, 0);
+            if libc::connect(c, &sa as *const _ as *const _, sl) == 0 {
+                fillers.push(c);
+            } else {
+                full = errno() == libc::EAGAIN;
+                libc::close(c);
+                break;
+            }
+        }
+        if !full {
+            r.note("real-kernel check of UnixStream::connect on a full accept queue skipped: the queue never filled");
+            r.outcome("real-unix-connect-full-backlog:skipped");
+            return;
+        }
+        let n_fill = fillers.len();
+        let helper = std::thread::spawn(move || {
+            std::thread::sleep(Duration::from_millis(200));
+            let mut acc = Vec::new();
+            for _ in 0..n_fill + 1 {
+                let (pr, _) = poll1(l, libc::POLLIN, 1000);
+                if pr != 1 {
+                    break;
+                }
+                let a = libc::accept4(l, std::ptr::null_mut(), std::ptr::null_mut(), libc::SOCK_CLOEXEC);
+                if a >= 0 {
+                    acc.push(a);
+                }
+            }
+            acc
+        });
+        let path = tiny_std::UnixStr::try_from_str(&p).expect("path");
+        let t0 = mono_ns();
+        let res = catch(|| UnixStream::connect(path));
+        let us = (mono_ns() - t0) / 1000;
+        let rep = json!({"phase": "real-unix-connect-full-backlog"});
+        match res {
+            Ok(Ok(s)) => {
+                r.outcome("real-unix-connect-full-backlog:waited-and-connected");
+                r.sample(json!({"real": "UnixStream::connect on a full accept queue", "result": "connected", "us": us}));
+                drop(s);
+            }
+            Ok(Err(e)) => {
+                let code = match e {
+                    tiny_std::Error::Os { code, .. } => code.raw(),
+                    _ => 0,
+                };
+                r.outcome("real-unix-connect-full-backlog:error-before-the-peer-accepted");
+                r.sample(json!({"real": "UnixStream::connect on a full accept queue", "result": format!("{e}"), "us": us}));
+                if code == libc::EAGAIN {
+                    r.violation(
+                        "C16:UnixStream::connect:fails-with-would-block-while-peer-has-not-accepted-yet",
+                        format!(
+                            "REAL KERNEL: listener with backlog 0 and {n_fill} queued connection(s), the peer accepts 200 ms later; the blocking UnixStream::connect returned `{e}` \
+                             after {us} us instead of completing when the peer accepted (AF_UNIX connect answers EAGAIN on a full queue, the unconnected socket polls writable at once, \
+                             the single retry answers EAGAIN again)"
+                        ),
+                        rep,
+                    );
+                }
+            }
+            Err(p) => r.violation("C16:UnixStream::connect:panic", format!("panicked: {p}"), rep),
+        }
+        for a in helper.join().unwrap_or_default() {
+            libc::close(a);
+        }
+        for f in fillers {
+            libc::close(f);
+        }
+        libc::close(l);
+        let _ = std::fs::remove_dir_all(&dir);
+    }
+}
+
 /// Run the witnesses in a forked child (signals, timers) and return its report.
 pub fn run(out: &str) -> Report {
     let items = vec![isolated("conformance", || {
@@ -768,6 +872,12 @@ pub fn phase(args: &Args) -> Report {
         r
     })];
     r.merge(run_isolated(items, &format!("{}.rcb", args.out), "C16"));
+    let items = vec![isolated("real-unix-connect-full-backlog", || {
+        let mut r = Report::new();
+        real_unix_connect_full_backlog(&mut r);
+        r
+    })];
+    r.merge(run_isolated(items, &format!("{}.ucf", args.out), "C16"));
     let items = vec![isolated("real-exec-eof", || {
         let mut r = Report::new();
         real_exec_eof(&mut r);
@@ -778,7 +888,7 @@ pub fn phase(args: &Args) -> Report {
               not ready with zero time-out, 0 at/after the time-out, EINTR with the remaining time written back, readiness followed by progress; accept4: EAGAIN / descriptor; \
               unix connect: 0 / ECONNREFUSED / EAGAIN on a full backlog then 0; TCP connect: EINPROGRESS then POLLOUT then SO_ERROR 0 and second connect 0, ECONNREFUSED, \
               EALREADY while in progress; blocking-mode read / accept4 observed asleep in the kernel for 50 ms through /proc/self/task/<tid>/{syscall,stat}) is driven on the REAL kernel with non-blocking socket pairs and loopback TCP through libc; one evaluation = one kind; plus one real-kernel \
-              run of TcpStreamInProgress::connect_blocking on a connection that is still in progress; plus (SAMPLED timing, 500 ms deadline) for every accept / connect variant of both families \
+              run of TcpStreamInProgress::connect_blocking on a connection that is still in progress and one of UnixStream::connect against a full accept queue whose owner accepts 200 ms later; plus (SAMPLED timing, 500 ms deadline) for every accept / connect variant of both families \
               x {no child, a real fork+exec of this executable in sleep mode between obtaining and dropping the stream}: the libc peer's read must report end-of-stream after the drop"
         .into();
     r.bound("kinds", r.evaluations);
